@@ -96,6 +96,13 @@ type Sched struct {
 
 var active atomic.Pointer[Sched]
 
+// free-running mode (race-detector pass): no scheduler, threads are plain
+// goroutines that are only counted.
+var (
+	freeMode atomic.Bool
+	freeLive atomic.Int64
+)
+
 // Active reports whether a scheduler currently controls execution.
 func Active() bool { return active.Load() != nil }
 
@@ -131,6 +138,13 @@ func (s *Sched) me() *thread {
 func Point(op Op) {
 	s := active.Load()
 	if s == nil {
+		if op.Enabled != nil && freeLive.Load() > 0 {
+			// free-running (-race) pass: a harness-level wait becomes a spin
+			for !op.Enabled() {
+				runtime.Gosched()
+				time.Sleep(time.Microsecond)
+			}
+		}
 		return
 	}
 	if s.setup {
@@ -193,6 +207,15 @@ func Go(fn func()) { GoNamed("", fn) }
 func GoNamed(name string, fn func()) {
 	s := active.Load()
 	if s == nil {
+		if freeMode.Load() {
+			freeLive.Add(1)
+			go func() {
+				defer freeLive.Add(-1)
+				defer func() { recover() }()
+				fn()
+			}()
+			return
+		}
 		go fn()
 		return
 	}
